@@ -21,8 +21,8 @@
 static int thorough;
 static int is_tsan;
 
-enum { B_FULL = 0, B_RESUME_A, B_RESUME_B, B_RESUME_A2, B_ROTATE, B_RESUME_A_NOEMS, B_RESUME_UNKNOWN, B_FULL_P384, B_NBODY };
-static const char *bname[] = { "full", "resume(A)", "resume(B)", "resume(A,2nd client)", "rotate-ticket-keys", "resume(A, extended master secret off)", "resume(unknown id)", "full(client enables only secp384r1)" };
+enum { B_FULL = 0, B_RESUME_A, B_RESUME_B, B_RESUME_A2, B_ROTATE, B_RESUME_A_NOEMS, B_RESUME_UNKNOWN, B_FULL_P384, B_DELKEY, B_CRL_FLUSH, B_NBODY };
+static const char *bname[] = { "full", "resume(A)", "resume(B)", "resume(A,2nd client)", "rotate-ticket-keys", "resume(A, extended master secret off)", "resume(unknown id)", "full(client enables only secp384r1)", "delete-the-only-ticket-key", "insert-a-crl-then-remove-all" };
 
 typedef struct { const char *name; int ver, kx; uint16_t suite; int tickets; int prefill; int nthreads; int body[SR_MAXT]; int maxbound_tsan, maxbound; int cb; } scen_t;
 static const scen_t scens[] = {
@@ -43,6 +43,10 @@ static const scen_t scens[] = {
     { "ticket-callback-resume-vs-rotate", V_TLS12, KX_RSA, 0, 1, 0, 2, { B_RESUME_A, B_ROTATE }, 1, 2, 1 },
     /* two sessions hold the same key in their callback windows while it is retired */
     { "ticket-callback-resume-x2-vs-rotate", V_TLS12, KX_RSA, 0, 1, 0, 3, { B_RESUME_A, B_RESUME_B, B_ROTATE }, 1, 2, 1 },
+    /* the only ticket key is deleted while a full handshake that announced a NewSessionTicket is under way */
+    { "ticket-full-handshake-vs-delete-the-only-key", V_TLS12, KX_RSA, 0, 1, 0, 2, { B_FULL, B_DELKEY }, 1, 2 },
+    /* two threads flush the global CRL cache (the second finds it empty) */
+    { "crl-cache-insert-and-remove-all-x2", V_TLS12, KX_PSK, 0, 0, 0, 2, { B_CRL_FLUSH, B_CRL_FLUSH }, 1, 2 },
     /* cb 2: the tickets' key has been rotated out before the threads start; the callback of each resuming session loads
        it again (what the API documents the callback for) */
     { "ticket-callback-loads-missing-key-x2", V_TLS12, KX_RSA, 0, 1, 0, 2, { B_RESUME_A, B_RESUME_B }, 1, 2, 2 },
@@ -169,6 +173,25 @@ static void *thread_main(void *arg)
     case B_RESUME_A_NOEMS: body_connect(id, sidA2); break;
     case B_RESUME_UNKNOWN: body_connect(id, sidUnknown); break;
     case B_ROTATE: body_rotate(id); break;
+    case B_DELKEY:
+    {
+        int b = matrixSslDeleteSessionTicketKey(base.s[1].keys, (unsigned char *) tk_name1);
+        snprintf(thr_out[id], sizeof(thr_out[id]), "del%d", b);
+        break;
+    }
+    case B_CRL_FLUSH:
+    {
+        /* an (empty, unauthenticated) CRL object goes into the cache and the cache is flushed */
+        psX509Crl_t *crl = psCalloc(NULL, 1, sizeof(psX509Crl_t));
+        int a = crl ? psCRL_Insert(crl) : -1;
+        psCRL_RemoveAll();
+        if (crl)
+        {
+            psX509FreeCRL(crl);
+        }
+        snprintf(thr_out[id], sizeof(thr_out[id]), "ins%d", a < 0 ? -1 : 1);
+        break;
+    }
     }
     sr_thread_end();
     return NULL;
@@ -523,6 +546,10 @@ static void explore(int si, int bound, int pass_seq_only)
             {
                 sym = WTERMSIG(status) == SIGALRM ? "hang" : "crash";
             }
+            else if (WIFEXITED(status) && WEXITSTATUS(status) == 1)
+            {
+                sym = "crash";   /* exit code 1 is the sanitizer's (a fault it caught and reported); the harness's own are 40.. */
+            }
             else if (WIFEXITED(status) && WEXITSTATUS(status) != 0 && WEXITSTATUS(status) != 66)
             {
                 r.violation = 2;
@@ -541,7 +568,8 @@ static void explore(int si, int bound, int pass_seq_only)
             }
             else if (!tr->done)
             {
-                sym = "execution-did-not-finish";
+                /* exit code 66 with an unfinished execution: ThreadSanitizer's exit after a fault it reported (SEGV) */
+                sym = (WIFEXITED(status) && WEXITSTATUS(status) == 66) ? "crash" : "execution-did-not-finish";
             }
             else if (npre == 0)
             {
@@ -677,10 +705,10 @@ int main(int argc, char **argv)
         }
         snprintf(r.outcome, sizeof(r.outcome), "p%d", npre);
         snprintf(r.what, sizeof(r.what), "status %x deadlock %d done %d outcome [%s] points %d", status, tr->deadlock, tr->done, tr->outcome, tr->npoints);
-        if (WIFSIGNALED(status))
+        if (WIFSIGNALED(status) || (WIFEXITED(status) && WEXITSTATUS(status) == 1))
         {
             r.violation = 1;
-            snprintf(r.key, sizeof(r.key), "%s|%s", scens[si].name, WTERMSIG(status) == SIGALRM ? "hang" : "crash");
+            snprintf(r.key, sizeof(r.key), "%s|%s", scens[si].name, WIFSIGNALED(status) && WTERMSIG(status) == SIGALRM ? "hang" : "crash");
         }
         else if (tr->deadlock)
         {
